@@ -4,6 +4,7 @@ CONSTANTS
   LeaveFix = TRUE
   MaxResets = 1
   Faults = TRUE
+  MaxProcs = 1
 VIEW view
 INVARIANT TypeOK
 INVARIANT StartedOnlyWhenAll
